@@ -7,7 +7,7 @@ import copy
 
 from smartquery.custom_types import Decimal
 from smartquery.exceptions import ParserError, OpsExecutionLimitExceededError
-from smartquery.functions import _dict_key_cast, _check_concat_size
+from smartquery.functions import _dict_key_cast, _check_concat_size, _multiply
 from smartquery.utils import safe_cast
 from smartquery.vm_state import VMState
 
@@ -161,7 +161,7 @@ class ShortOp(Op):
         elif self.op == '-=':
             state.names[self.name] -= value
         elif self.op == '*=':
-            state.names[self.name] *= value
+            state.names[self.name] = _multiply(state.names[self.name], value)
         elif self.op == '/=':
             state.names[self.name] /= value
         else:
